@@ -55,13 +55,16 @@ stageLoop:
 			*logql.LabelFilter,
 			*logql.LabelFormatExpr,
 			*logql.DropLabelsExpr,
-			*logql.KeepLabelsExpr,
-			*logql.DistinctFilter:
+			*logql.KeepLabelsExpr:
 			// Do nothing on line, just skip.
 		case *logql.LineFormat,
 			*logql.DecolorizeExpr,
 			*logql.UnpackLabelParser:
 			// Stage modify the line, can't offload line filters after this stage.
+			break stageLoop
+		case *logql.DistinctFilter:
+			// Stage is stateful: a filter applied before it changes which records
+			// it has already seen, can't offload line filters after this stage.
 			break stageLoop
 		}
 	}
